@@ -705,12 +705,16 @@ End Proofs.
 Definition safe_cp (c : N) : Prop := is_illegal c = false /\ is_ctrl c = false.
 
 Lemma safe_cp_spec c : safe_cp c ->
-  (32 <= c /\ c <> 47 /\ c <> 92 /\ c <> 60 /\ c <> 62 /\ c <> 58 /\ c <> 34 /\ c <> 124 /\ c <> 63 /\ c <> 42)%N.
+  (32 <= c /\ c <> 47 /\ c <> 92 /\ c <> 60 /\ c <> 62 /\ c <> 58 /\ c <> 34 /\ c <> 124 /\ c <> 63 /\ c <> 42 /\
+   (c < 127 \/ 159 < c))%N.
 Proof.
   unfold safe_cp, is_illegal, is_ctrl. intros [Hi Hc].
   repeat (apply orb_false_iff in Hi; destruct Hi as [Hi ?]).
   repeat match goal with Hx : (_ =? _)%N = false |- _ => apply N.eqb_neq in Hx end.
-  apply N.ltb_ge in Hc. repeat split; assumption.
+  apply orb_false_iff in Hc. destruct Hc as [Hc Hd]. apply N.ltb_ge in Hc.
+  assert (c < 127 \/ 159 < c)%N.
+  { apply andb_false_iff in Hd. destruct Hd as [Hd | Hd]; apply N.leb_gt in Hd; lia. }
+  repeat split; assumption.
 Qed.
 
 Lemma match_here_unsafe st a r : safe_cp a \/ exists k, match_here st (a :: r) = Some (S k).
@@ -781,7 +785,7 @@ Qed.
 Theorem sanitize_safe_chars name :
   sanitize name <> [] /\
   forall c, In c (sanitize name) ->
-    (32 <= c /\ c <> 47 /\ c <> 92 /\ c <> 60 /\ c <> 62 /\ c <> 58 /\ c <> 34 /\ c <> 124 /\ c <> 63 /\ c <> 42)%N.
+    (32 <= c /\ c <> 47 /\ c <> 92 /\ c <> 60 /\ c <> 62 /\ c <> 58 /\ c <> 34 /\ c <> 124 /\ c <> 63 /\ c <> 42 /\ (c < 127 \/ 159 < c))%N.
 Proof.
   destruct (sanitize_safe name) as [Hne Hall]. split; [exact Hne|].
   intros c Hin. apply safe_cp_spec. exact (proj1 (Hall c Hin)).
@@ -1312,9 +1316,73 @@ Qed.
 
 Theorem save_names_safe_chars sugg n : suggested_save_name sugg = Some n \/ save_file_name sugg = Some n ->
   n <> [] /\ forall c, In c n ->
-    (32 <= c /\ c <> 47 /\ c <> 92 /\ c <> 60 /\ c <> 62 /\ c <> 58 /\ c <> 34 /\ c <> 124 /\ c <> 63 /\ c <> 42)%N.
+    (32 <= c /\ c <> 47 /\ c <> 92 /\ c <> 60 /\ c <> 62 /\ c <> 58 /\ c <> 34 /\ c <> 124 /\ c <> 63 /\ c <> 42 /\ (c < 127 \/ 159 < c))%N.
 Proof.
   destruct (save_names_safe sugg) as [H1 H2].
   intros [Hn | Hn]; [destruct (H1 n Hn) as [Hne Hall] | destruct (H2 n Hn) as [Hne Hall]];
     (split; [exact Hne | intros c Hc; apply safe_cp_spec; exact (Hall c Hc)]).
 Qed.
+
+(* ------------------------------------------------------------------------------------------ *)
+(* a cancelled save never leaves a truncated file; range reads serve the file from the requested offset *)
+Lemma save_loop_spec : forall ps acc k,
+  save_loop acc ps k = if Nat.leb k (length ps) then None else Some (acc ++ concat ps).
+Proof.
+  induction ps as [|p r IH]; intros acc k.
+  - destruct k; cbn; [reflexivity | rewrite app_nil_r; reflexivity].
+  - destruct k as [|k]; [reflexivity|]. cbn [save_loop length concat Nat.leb].
+    rewrite IH, <- app_assoc. reflexivity.
+Qed.
+
+Theorem cancelled_save maxb f k : (2 <= maxb)%nat ->
+  (save_loop [] (split maxb f) k = None /\ (k <= length (split maxb f))%nat) \/
+  (save_loop [] (split maxb f) k = Some f /\ (length (split maxb f) < k)%nat).
+Proof.
+  intro Hm. rewrite save_loop_spec. cbn [app]. rewrite split_concat by exact Hm.
+  destruct (Nat.leb_spec k (length (split maxb f))); [left | right]; split; auto.
+Qed.
+
+Lemma split_fuel_irrelevant c : (0 < c)%nat -> forall fuel fuel' f, (length f <= fuel)%nat -> (length f <= fuel')%nat ->
+  split_fuel fuel c f = split_fuel fuel' c f.
+Proof.
+  intros Hc. induction fuel as [|k IH]; intros fuel' f H1 H2.
+  - destruct f; [|simpl in H1; lia]. destruct fuel'; reflexivity.
+  - destruct f as [|x r]; [destruct fuel'; reflexivity|].
+    destruct fuel' as [|k']; [simpl in H2; lia|].
+    cbn [split_fuel]. destruct (Nat.eqb c 0); [reflexivity|]. f_equal.
+    apply IH; rewrite skipn_length; cbn [length] in *; lia.
+Qed.
+
+Lemma skipn_skipn' {A} : forall x y (l : list A), skipn x (skipn y l) = skipn (x + y) l.
+Proof.
+  intros x y. revert x. induction y as [|y IH]; intros x l.
+  - rewrite Nat.add_0_r. reflexivity.
+  - destruct l as [|a l]; [rewrite !skipn_nil; reflexivity|].
+    replace (x + S y)%nat with (S (x + y)) by lia. cbn [skipn]. apply IH.
+Qed.
+
+Lemma skipn_split maxb : (2 <= maxb)%nat -> forall q f,
+  skipn q (split maxb f) = split maxb (skipn (q * (maxb - 1)) f).
+Proof.
+  intros Hm. induction q as [|q IH]; intro f; [reflexivity|].
+  unfold split at 1. destruct f as [|x r].
+  - cbn. rewrite skipn_nil. reflexivity.
+  - cbn [length split_fuel]. destruct (Nat.eqb_spec (maxb - 1) 0); [lia|]. cbn [skipn].
+    rewrite (split_fuel_irrelevant (maxb - 1) ltac:(lia) _ (length (skipn (maxb - 1) (x :: r))))
+      by (rewrite ?skipn_length; cbn [length]; lia).
+    fold (split maxb (skipn (maxb - 1) (x :: r))). rewrite IH, skipn_skipn'.
+    replace (q * (maxb - 1) + (maxb - 1))%nat with (S q * (maxb - 1))%nat by lia. reflexivity.
+Qed.
+
+Theorem range_read_correct maxb f start : (2 <= maxb)%nat ->
+  range_read maxb (split maxb f) start = skipn start f.
+Proof.
+  intro Hm. unfold range_read, range_plan. rewrite skipn_split by exact Hm. rewrite split_concat by exact Hm.
+  rewrite skipn_skipn'. f_equal.
+  pose proof (Nat.div_mod start (maxb - 1) ltac:(lia)). lia.
+Qed.
+
+Theorem recovered_name_safe sugg :
+  recovered_file_name sugg <> [] /\ forall c, In c (recovered_file_name sugg) ->
+    (32 <= c /\ c <> 47 /\ c <> 92 /\ c <> 60 /\ c <> 62 /\ c <> 58 /\ c <> 34 /\ c <> 124 /\ c <> 63 /\ c <> 42 /\ (c < 127 \/ 159 < c))%N.
+Proof. apply sanitize_safe_chars. Qed.
